@@ -14,7 +14,7 @@
    [stat_sim] / [obs_sim]: equality, except that the specification reports 0 for the size of a directory (in a
    FileInfo, and in every entry of a directory listing). *)
 From Avfs Require Import Base PathModel PathSpec PathProofs PathCleanProofs PathIterProofs.
-From Avfs Require Import MemFS MemFile World Posix WalkBridge WalkSym WalkBudget WalkReadlink WalkRel StepEq.
+From Avfs Require Import MemFS MemFile World Posix Inv WalkBridge WalkSym WalkBudget WalkReadlink WalkRel StepEq WalkInv.
 
 Theorem C01_step_stat : forall (s : fsys) (sv : sview) (cs : list str),
   step_hyps s sv -> path_ok s sv SlStat cs ->
@@ -167,6 +167,12 @@ Theorem C01_steps_resolved : forall (s : fsys) (sv : sview) (p : str),
         | _, _ => False
         end).
 Proof. exact steps_resolved. Qed.
+
+(* the hypotheses of a step on the states of C05: [Inv] gives everything except [links_clean] and the administrator *)
+Theorem C01_inv_step_hyps : forall (w : world) (vi : nat) (v : view) (cwdn : nat),
+  Inv w -> nth_error (w_views w) vi = Some v -> us_admin (v_user v) = true -> links_clean (f_heap (w_fs w)) ->
+  step_hyps (w_fs w) {| sv_view := v; sv_cwd := cwdn |}.
+Proof. exact Inv_step_hyps. Qed.
 
 (* one step of the two step functions of the models (the statement the oracle stream's "T" column tests):
    covered call => same projected result, and the abstraction relation is kept (same file system, same view) *)
